@@ -165,16 +165,18 @@ def checkStart (H : FiatH τ) (i : Nat) (w : World τ) : Bool × World τ :=
            else evalGuards H i (frameOf (w.framers i) 0).beacts w
   (r.1, r.2.log (.check i r.1))
 
+def setRecurred (i n : Nat) (w : World τ) : World τ := w.modF i fun f => { f with recurred := n }
+def bumpRecurred (i : Nat) (w : World τ) : World τ := w.modF i fun f => { f with recurred := f.recurred + 1 }
+def setActive (i : Nat) (a : Option Nat) (w : World τ) : World τ := w.modF i fun f => { f with active := a }
+
 /-- `Framer.enter([frame])`: restart the counter, run the enter actions (then `activate`) -/
 def enterFrame (H : FiatH τ) (i idx : Nat) (w : World τ) : World τ :=
-  let w := w.modF i fun f => { f with recurred := 0 }
-  let w := runActs H i (frameOf (w.framers i) idx).enacts w
-  w.modF i fun f => { f with active := some idx }
+  setActive i (some idx) (runActs H i (frameOf (w.framers i) idx).enacts (setRecurred i 0 w))
 
 /-- `Framer.enterAll()` -/
 def enterAll (H : FiatH τ) (i : Nat) (w : World τ) : World τ :=
   -- `activate(first)` comes first in the code; nothing in between reads `active`
-  enterFrame H i 0 (w.modF i fun f => { f with active := some 0 })
+  enterFrame H i 0 (setActive i (some 0) w)
 
 /-- `Framer.recur()`: the recur actions of the active frame -/
 def recur (H : FiatH τ) (i : Nat) (w : World τ) : World τ :=
@@ -182,12 +184,15 @@ def recur (H : FiatH τ) (i : Nat) (w : World τ) : World τ :=
   | some idx => runActs H i (frameOf (w.framers i) idx).reacts w
   | none => w
 
+/-- the exit actions of the active frame -/
+def exitActive (H : FiatH τ) (i : Nat) (w : World τ) : World τ :=
+  match (w.framers i).active with
+  | some idx => runActs H i (frameOf (w.framers i) idx).exacts w
+  | none => w
+
 /-- `Framer.exitAll()`: exit actions of the active frame, then `deactivate` -/
 def exitAll (H : FiatH τ) (i : Nat) (w : World τ) : World τ :=
-  let w := match (w.framers i).active with
-    | some idx => runActs H i (frameOf (w.framers i) idx).exacts w
-    | none => w
-  w.modF i fun f => { f with active := none }
+  setActive i none (exitActive H i w)
 
 /-- `Frame.precur()`: the transitions in order; a transition whose needs hold and whose target's entry
 guards pass is taken (exit near, enter far, activate far) and ends the evaluation. -/
@@ -197,51 +202,77 @@ def precur (H : FiatH τ) (i near : Nat) : List Trans → World τ → World τ
     if t.conds.all (evalCond i w) then
       let r := evalGuards H i (frameOf (w.framers i) t.target).beacts w
       if r.1 then
-        let w := runActs H i (frameOf (r.2.framers i) near).exacts r.2
-        enterFrame H i t.target w
+        enterFrame H i t.target (runActs H i (frameOf (w.framers i) near).exacts r.2)
       else precur H i near rest r.2
     else precur H i near rest w
 
-/-- `Framer.segue()`: count the recurrence, then try the transitions of the active frame -/
-def segue (H : FiatH τ) (i : Nat) (w : World τ) : World τ :=
-  let w := w.modF i fun f => { f with recurred := f.recurred + 1 }
+/-- the transitions of the active frame -/
+def precurActive (H : FiatH τ) (i : Nat) (w : World τ) : World τ :=
   match (w.framers i).active with
   | some idx => precur H i idx (frameOf (w.framers i) idx).preacts w
   | none => w
+
+/-- `Framer.segue()`: count the recurrence, then try the transitions of the active frame -/
+def segue (H : FiatH τ) (i : Nat) (w : World τ) : World τ :=
+  precurActive H i (bumpRecurred i w)
+
+/-! the branches of the control × status table of `Framer.makeRunner` -/
+
+/-- RUN while running/started: `self.segue(); self.recur(); self.status = RUNNING` -/
+def runLive (H : FiatH τ) (i : Nat) (w : World τ) : World τ :=
+  setStatus i .running (recur H i (segue H i w))
+
+/-- any control while ABORTED (or an unknown status): `self.desire = ABORT; self.status = ABORTED` -/
+def abortBad (i : Nat) (w : World τ) : World τ :=
+  setStatus i .aborted (writeDesire i .abort w)
+
+/-- READY while stopped/readied -/
+def readyIdle (H : FiatH τ) (i : Nat) (w : World τ) : World τ :=
+  let r := checkStart H i w
+  if r.1 then setStatus i .readied r.2
+  else setStatus i .stopped (writeDesire i .stop r.2)
+
+/-- START while stopped/readied: on success `self.desire = RUN; self.enterAll(); self.recur();
+self.status = STARTED`, else `self.desire = STOP; self.status = STOPPED` -/
+def startIdle (H : FiatH τ) (i : Nat) (w : World τ) : World τ :=
+  let r := checkStart H i w
+  if r.1 then setStatus i .started (recur H i (enterAll H i (writeDesire i .run r.2)))
+  else setStatus i .stopped (writeDesire i .stop r.2)
+
+/-- STOP while running/started: `self.desire = STOP; self.exitAll(abort=True); self.status = STOPPED` -/
+def stopLive (H : FiatH τ) (i : Nat) (w : World τ) : World τ :=
+  setStatus i .stopped (exitAll H i (writeDesire i .stop w))
+
+/-- ABORT (or an unknown control): `exitAll()` if running/started, then
+`self.desire = ABORT; self.status = ABORTED` -/
+def abortAny (H : FiatH τ) (i : Nat) (live : Bool) (w : World τ) : World τ :=
+  setStatus i .aborted (writeDesire i .abort (if live then exitAll H i w else w))
 
 /-- One resumption of `Framer.makeRunner` with `control`: the control × status table.
 Returns the status yielded. -/
 def table (H : FiatH τ) (i : Nat) (c : Control) (w : World τ) : Status × World τ :=
   let st := (w.framers i).status            -- `status = self.status  #for speed`
-  let live := st = .running ∨ st = .started
-  let idle := st = .stopped ∨ st = .readied
-  let bad (w : World τ) := setStatus i .aborted (writeDesire i .abort w)
+  let live : Bool := st = .running ∨ st = .started
+  let idle : Bool := st = .stopped ∨ st = .readied
   let w' : World τ :=
     match c with
     | .run =>
-      if live then setStatus i .running (recur H i (segue H i w))
+      if live then runLive H i w
       else if idle then writeDesire i .start w
-      else bad w
+      else abortBad i w
     | .ready =>
-      if idle then
-        let r := checkStart H i w
-        if r.1 then setStatus i .readied r.2
-        else setStatus i .stopped (writeDesire i .stop r.2)
+      if idle then readyIdle H i w
       else if live then w
-      else bad w
+      else abortBad i w
     | .start =>
-      if idle then
-        let r := checkStart H i w
-        if r.1 then setStatus i .started (recur H i (enterAll H i (writeDesire i .run r.2)))
-        else setStatus i .stopped (writeDesire i .stop r.2)
+      if idle then startIdle H i w
       else if live then writeDesire i .run w
-      else bad w
+      else abortBad i w
     | .stop =>
-      if live then setStatus i .stopped (exitAll H i (writeDesire i .stop w))
+      if live then stopLive H i w
       else if idle then w
-      else bad w
-    | .abort | .other =>          -- `else: #control == ABORT or unknown`
-      setStatus i .aborted (writeDesire i .abort (if live then exitAll H i w else w))
+      else abortBad i w
+    | .abort | .other => abortAny H i live w     -- `else: #control == ABORT or unknown`
   ((w'.framers i).status, w')
 
 /-- a fiat inside a slave: not modelled -/
